@@ -137,3 +137,110 @@ def seq_bound(spec):
         r = min(rates) if rates else 1.0
         tot += int(math.ceil(rem / r - 1e-9)) + 1
     return tot
+
+
+# ------------------------------------------------------------------------------------------------
+# FAC: models with components, workplaces and facilities
+# ------------------------------------------------------------------------------------------------
+def fac_specs(tier="quick", ns=None, only_single_task_components=False):
+    """Exhaustive product of small facility/placement shapes (see DESIGN 2.3 'FAC')."""
+    ns = ns or ((1, 2) if tier == "quick" else (1, 2, 3))
+    link_shapes = {1: [[]], 2: [[], [[0, 1, "FS"]], [[0, 1, "SS"]]], 3: [[], [[0, 1, "FS"], [1, 2, "FS"]], [[0, 2, "FS"], [1, 2, "FS"]]]}
+    works = {1: [(2.0,)], 2: [(2.0, 1.0)], 3: [(2.0, 1.0, 1.0)]}
+    comp_maps = ["per-task", "shared", "parent-child", "extra"]
+    if only_single_task_components:
+        comp_maps = ["per-task", "extra"]
+    wp_layouts = ["one-cap1", "one-cap2", "two-free", "two-conveyor"]
+    fac_layouts = ["plain", "two", "solo", "fixed", "zero"]
+    wk_layouts = ["both", "w1-none", "w0-only-first"]
+    if tier == "quick":
+        fac_layouts = ["plain", "two", "solo", "zero"]
+        wk_layouts = ["both", "w0-only-first"]
+    for n in ns:
+        names = [tname(i) for i in range(n)]
+        for links in link_shapes[n]:
+            for wv in works[n]:
+                for nfmask in range(1, 1 << n):
+                    if tier == "quick" and n == 2 and nfmask == 2:
+                        continue
+                    nf = [bool(nfmask >> i & 1) for i in range(n)]
+                    for cm in comp_maps:
+                        if n == 1 and cm in ("shared",):
+                            continue
+                        for wl in wp_layouts:
+                            for fl in fac_layouts:
+                                for kl in wk_layouts:
+                                    yield _fac_one(n, names, links, wv, nf, cm, wl, fl, kl)
+
+
+def _fac_one(n, names, links, wv, nf, cm, wl, fl, kl):
+    tasks = [{"name": names[i], "work": wv[i], "nf": nf[i]} for i in range(n)]
+    # components
+    if cm == "per-task":
+        comps = [{"name": "C%d" % i, "tasks": [i]} for i in range(n)]
+    elif cm == "shared":
+        comps = [{"name": "C0", "tasks": list(range(n))}]
+    elif cm == "parent-child":
+        if n == 1:
+            comps = [{"name": "C0", "tasks": [], "children": [1]}, {"name": "C1", "tasks": [0]}]
+        else:
+            comps = [{"name": "C0", "tasks": [n - 1], "children": [1]}, {"name": "C1", "tasks": list(range(n - 1))}]
+    else:  # extra: per task + one component without tasks
+        comps = [{"name": "C%d" % i, "tasks": [i]} for i in range(n)] + [{"name": "CX", "tasks": []}]
+    # workplaces
+    allt = list(range(n))
+    if wl == "one-cap1":
+        wps = [{"name": "WP0", "cap": 1.0, "targets": allt}]
+    elif wl == "one-cap2":
+        wps = [{"name": "WP0", "cap": 2.0, "targets": allt}]
+    elif wl == "two-free":
+        wps = [{"name": "WP0", "cap": 1.0, "targets": allt}, {"name": "WP1", "cap": 1.0, "targets": allt}]
+    else:
+        wps = [{"name": "WP0", "cap": 1.0, "targets": allt[:1] if n > 1 else allt}, {"name": "WP1", "cap": 1.0, "targets": allt, "inputs": [0]}]
+    fid = 0
+    for wp in wps:
+        full = {nm: 1.0 for nm in names}
+        if fl == "plain":
+            facs = [{"skills": dict(full), "cost": 1.0}]
+        elif fl == "two":
+            facs = [{"skills": dict(full), "cost": 1.0}, {"skills": {nm: 2.0 for nm in names}, "cost": 2.0}]
+        elif fl == "solo":
+            facs = [{"skills": dict(full), "cost": 1.0, "solo": True}, {"skills": dict(full), "cost": 2.0}]
+        elif fl == "fixed":
+            facs = [{"skills": dict(full), "cost": 1.0}, {"skills": dict(full), "cost": 2.0}]
+        else:  # zero / missing skills
+            s0 = dict(full)
+            s0[names[0]] = 0.0
+            s1 = dict(full)
+            if n > 1:
+                del s1[names[-1]]
+            facs = [{"skills": s0, "cost": 1.0}, {"skills": s1, "cost": 2.0}]
+        for f in facs:
+            f["name"] = "F%d" % fid
+            fid += 1
+        wp["facilities"] = facs
+    if fl == "fixed":
+        tasks[0]["fixf"] = [wps[0]["facilities"][1]["name"]] + ([wps[1]["facilities"][0]["name"]] if len(wps) > 1 else [])
+    fnames = [f["name"] for wp in wps for f in wp["facilities"]]
+    full = {nm: 1.0 for nm in names}
+    if kl == "both":
+        fs0 = {f: 1.0 for f in fnames}
+        fs1 = {f: 1.0 for f in fnames}
+    elif kl == "w1-none":
+        fs0 = {f: 1.0 for f in fnames}
+        fs1 = {}
+    else:
+        fs0 = {fnames[0]: 1.0}
+        fs1 = {f: (0.0 if f == fnames[0] else 1.0) for f in fnames}
+    teams = [
+        {
+            "name": "TM0",
+            "targets": allt,
+            "workers": [
+                {"name": "W0", "skills": dict(full), "fskills": fs0, "cost": 1.0},
+                {"name": "W1", "skills": dict(full), "fskills": fs1, "cost": 2.0},
+            ],
+        }
+    ]
+    return {"tasks": tasks, "links": [list(l) for l in links], "components": comps, "workplaces": wps, "teams": teams,
+            "label": "fac:%d:%s:%s:%s:%s" % (n, cm, wl, fl, kl)}
